@@ -3,8 +3,17 @@
    every run); combinatorial model: Render/MS.v, Render/Lattice.v; numeric model and the real-number
    lift: Render/Interp.v, Render/LatticeR.v, Render/CircleR.v; algebra of degrees: Render/Balance.v. *)
 From Coq Require Import List ZArith NArith Reals Bool.
-From Sdfx Require Import Num.Ops Num.RInst Geo.Vec Geo.NormR Generated.MarchTables
-  Render.Balance Render.MS Render.Lattice Render.Interp Render.LatticeR Render.CircleR.
+From Sdfx Require Import Num.Ops.
+From Sdfx Require Import Num.RInst.
+From Sdfx Require Import Geo.Vec.
+From Sdfx Require Import Geo.NormR.
+From Sdfx Require Import Generated.MarchTables.
+From Sdfx Require Import Render.Balance.
+From Sdfx Require Import Render.MS.
+From Sdfx Require Import Render.Lattice.
+From Sdfx Require Import Render.Interp.
+From Sdfx Require Import Render.LatticeR.
+From Sdfx Require Import Render.CircleR.
 Import ListNotations.
 
 (* ---------------------------------------------------------------- the tables (domain: all 16 rows) *)
